@@ -39,6 +39,8 @@ import (
 	"strconv"
 	"strings"
 	"sync"
+	"sync/atomic"
+	"time"
 
 	"github.com/grafana/carbon-relay-ng/input"
 
@@ -602,9 +604,11 @@ type chunkReader struct {
 	waitAt int           // >=0: block on wait before returning bytes at or beyond this offset
 	wait   chan struct{} // closed by the harness
 	waited bool
+	calls  int64 // atomic
 }
 
 func (c *chunkReader) Read(p []byte) (int, error) {
+	atomic.AddInt64(&c.calls, 1)
 	if c.pos >= len(c.data) {
 		return 0, io.EOF
 	}
@@ -644,7 +648,55 @@ func (o outcome) digest() string {
 	return b.String()
 }
 
+// chunkReader.calls counts the Read calls of one Handle call: a call that is still running but made no Read call
+// between two stack samples that both show a goroutine inside Pickle.Handle is not making progress.
+
+// stuck is called when a Handle call does not return; set by main.
+var stuck func(what string, stack string)
+
+const stuckBound = 120 * time.Second // a Handle call on these streams takes milliseconds
+
 func runHandle(h *input.Pickle, rd io.Reader) (err error, panicV string) {
+	done := make(chan struct{})
+	go func() {
+		defer close(done)
+		err, panicV = runHandle1(h, rd)
+	}()
+	for {
+		select {
+		case <-done:
+			return
+		case <-time.After(stuckBound):
+		}
+		// two samples, 2 s apart: a goroutine inside Pickle.Handle both times and no Read call in between
+		inHandle := func() (bool, string) {
+			buf := make([]byte, 1<<22)
+			buf = buf[:runtime.Stack(buf, true)]
+			for _, g := range strings.Split(string(buf), "\n\n") {
+				if strings.Contains(g, "input.(*Pickle).Handle") && !strings.Contains(g, "main.(*chunkReader).Read") {
+					return true, g
+				}
+			}
+			return false, ""
+		}
+		cr, _ := rd.(*chunkReader)
+		calls := func() int64 {
+			if cr == nil {
+				return 0
+			}
+			return atomic.LoadInt64(&cr.calls)
+		}
+		n0 := calls()
+		a, st := inHandle()
+		time.Sleep(2 * time.Second)
+		b, _ := inHandle()
+		if a && b && calls() == n0 {
+			stuck("a Handle call has not returned and is not reading", st)
+		}
+	}
+}
+
+func runHandle1(h *input.Pickle, rd io.Reader) (err error, panicV string) {
 	defer func() {
 		if x := recover(); x != nil {
 			st := string(debug.Stack())
@@ -845,6 +897,10 @@ func exoticLabel(f frameD, it itemD) string {
 		return "value=" + it.VK + ":" + numOp(f, it.V, it.Vop)
 	case it.TK != "int":
 		return "ts=" + it.TK + ":" + numOp(f, it.TS, it.Tsop)
+	case it.Vop != "": // a plain number in a forced opcode (python-2 workload)
+		return "value=" + it.VK + ":" + it.Vop
+	case it.Tsop != "":
+		return "ts=" + it.TK + ":" + it.Tsop
 	case it.NK != "ascii" && it.NK != "py2str-ascii":
 		return "name=" + it.NK + ":" + nameOp(f, it)
 	}
@@ -1500,12 +1556,23 @@ func main() {
 
 	py := startPy()
 	st := &stats{m: map[string]int{}}
+	var stuckOnce sync.Once
+	stuck = func(what, stack string) {
+		stuckOnce.Do(func() {
+			// the goroutine cannot be stopped: report, write what was observed so far and leave
+			res.Violate("handle-stuck", what+" (two stack samples 2 s apart show a goroutine inside Pickle.Handle, no Read call by it in between, after "+stuckBound.String()+")",
+				map[string]interface{}{"stack": stack, "last_cases": "see cases log: the connections logged last", "seed": mon.Seed(), "tier": mon.Tier()})
+			res.Write()
+			os.Exit(0)
+		})
+		select {}
+	}
 	seed := mon.Seed()
 
-	nMain := mon.N(400, 14000)
-	nBytes := mon.N(60, 1500)
-	nPy2 := mon.N(140, 4500)
-	nMal := mon.N(80, 2500)
+	nMain := mon.N(400, 6000)
+	nBytes := mon.N(60, 600)
+	nPy2 := mon.N(140, 2000)
+	nMal := mon.N(80, 1000)
 
 	type plan struct {
 		workload string
@@ -1538,20 +1605,24 @@ func main() {
 				}
 				c := genConn(seed, p.stream, i, p.o, id)
 				id++
-				py.send(c)
 				pe := pending{workload: p.workload, idx: i, c: c}
 				if p.workload == wlMal {
 					h := genConn(seed, 17, i, genOpts{workload: "healthy", letter: "h"}, id)
 					id++
-					py.send(h)
 					pe.extra = &h
 					t := connD{ID: id, Tag: "t", Frames: []frameD{{Mode: "py3", Proto: 1 + i%4, Top: "tuple_of_list", Items: c.Frames[0].Items}}}
 					id++
-					py.send(t)
 					pe.tuple = &t
 				}
-				py.in.Flush()
+				// announce first, write second: the consumer must already be reading python's answers while the
+				// descriptions are written, or both pipes can fill up (python blocks on its stdout, we on its stdin)
 				pend <- pe
+				py.send(c)
+				if pe.extra != nil {
+					py.send(*pe.extra)
+					py.send(*pe.tuple)
+				}
+				py.in.Flush()
 			}
 		}
 		py.in.Flush()
@@ -1632,7 +1703,7 @@ func main() {
 		res.Count("connections_"+p.workload, count[p.workload])
 	}
 	if replayIdx < 0 {
-		res.Floor("lines_compared", st.m["lines_compared"], mon.N(40000, 4000000))
+		res.Floor("lines_compared", st.m["lines_compared"], mon.N(40000, 2000000))
 		res.Floor("malformed_frames_fed", st.m["malformed_frames_fed"], nMal)
 		res.Floor("connections", st.m["connections"], nMain+nBytes+nPy2)
 	}
